@@ -15,6 +15,7 @@ from .. import fakepool
 
 FEATS = ['qa', 'qb', 'qc']           # features 1, 2, 3 of Parallel.tla
 QUALI = ['ka', 'kb']
+ORD = ['oa', 'ob']               # ordinal features held as numbers (ranks 1..k ranked '1'..'k'): completed by StringDiscretizer
 SPARSE = ['ia', 'ib', 'ic']      # id-like qualitative features: dropped for sparsity (no modality reaches min_freq)
 
 
@@ -32,6 +33,11 @@ def dataset(seed):
         # half of the datasets: the first level is rare (it ends in the default modality)
         pool = list(range(nlev)) if rng.random() < 0.5 else [0] + [i for i in range(1, nlev) for _ in range(5)]
         feats[f] = {'kind': 'categ', 'values': [None if rng.random() < 0.1 else cats[rng.choice(pool)] for _ in range(n)]}
+    for f in ORD:
+        nlev = rng.randint(3, 5)
+        conv = float if rng.random() < 0.5 else int
+        feats[f] = {'kind': 'ordinal', 'values': [None if rng.random() < 0.08 else conv(rng.randint(1, nlev)) for _ in range(n)],
+                    'order': [str(i + 1) for i in range(nlev)]}
     for j, f in enumerate(SPARSE):
         feats[f] = {'kind': 'categ', 'values': ['%s%02d' % (f, (i * (j + 1)) % n) for i in range(n)]}
     y = [rng.randint(0, 1) for _ in range(n)]
@@ -147,7 +153,7 @@ def run_dataset(seed, schedules, hash_seeds=(), real_pool=False):
     ds = dataset(seed)
     cases = []
     for cls in CLASSES:
-        names = FEATS if cls == 'ContinuousDiscretizer' else FEATS + QUALI + SPARSE
+        names = FEATS if cls == 'ContinuousDiscretizer' else FEATS + QUALI + ORD + SPARSE
         table = {}
 
         def code(text):
